@@ -135,7 +135,7 @@ Proof.
       unfold t_get_ttl. destruct (t_is_zero (e_exp e)); [discriminate|].
       destruct (s_now st <? t_created (e_exp e)) eqn:X; [lia|].
       destruct (t_d (e_exp e) <=? s_now st - t_created (e_exp e)); discriminate.
-    + destruct (buf_send c st (IDelete k c0)); [discriminate|]. destruct (c_async c); [destruct (s_pc st)|]; discriminate.
+    + destruct (buf_send c st (IDelete k c0)); [discriminate|]. destruct (s_pc st); discriminate.
     + destruct (s_closed st); discriminate.
     + destruct (mem_N id (s_done st)); discriminate.
     + destruct (mem_N id (s_done st)); [destruct closing|]; discriminate.
@@ -342,7 +342,7 @@ Proof.
   - destruct (buf_send c st (IDelete k c0)) as [st1|] eqn:E.
     + apply buf_send_eq in E. inversion H; subst. np_goal.
       eapply NPv_client; [|exact I]. eapply NPv_buf; [np_done N|]. apply Forall_snoc; [assumption|exact I].
-    + destruct (c_async c); [destruct (s_pc st); try discriminate|]; inversion H; subst; np_goal; (eapply NPv_client; [np_done N|exact I]).
+    + destruct (s_pc st); try discriminate; inversion H; subst; np_goal; (eapply NPv_client; [np_done N|exact I]).
   - destruct (s_closed st); inversion H; subst; np_goal; (eapply NPv_client; [np_done N|exact I]).
   - destruct (mem_N id (s_done st)); [|discriminate]. inversion H; subst; np_goal; (eapply NPv_client; [np_done N|exact I]).
   - destruct (mem_N id (s_done st)); [|discriminate]. destruct closing; inversion H; subst; np_goal; (eapply NPv_client; [np_done N|exact I]).
